@@ -91,6 +91,15 @@ pub open spec fn nz_kept(m: AsmMnemonic) -> bool {
     || m == AsmMnemonic::BCC || m == AsmMnemonic::BCS || m == AsmMnemonic::BEQ || m == AsmMnemonic::BMI || m == AsmMnemonic::BNE || m == AsmMnemonic::BPL
     || m == AsmMnemonic::TAX || m == AsmMnemonic::TAY
 }
+// N/Z afterwards describe X (resp. Y): loads, transfers into the register, and its own increments / decrements
+pub open spec fn nz_is_x(m: AsmMnemonic) -> bool { m == AsmMnemonic::LDX || m == AsmMnemonic::TAX || m == AsmMnemonic::INX || m == AsmMnemonic::DEX }
+pub open spec fn nz_is_y(m: AsmMnemonic) -> bool { m == AsmMnemonic::LDY || m == AsmMnemonic::TAY || m == AsmMnemonic::INY || m == AsmMnemonic::DEY }
+// N/Z unchanged (no transfer: TAY / TYA make them describe Y, TAX / TXA describe X)
+pub open spec fn nz_untouched(m: AsmMnemonic) -> bool {
+    m == AsmMnemonic::STA || m == AsmMnemonic::STX || m == AsmMnemonic::STY || m == AsmMnemonic::PHA || m == AsmMnemonic::PHP || m == AsmMnemonic::NOP
+    || m == AsmMnemonic::CLC || m == AsmMnemonic::SEC || m == AsmMnemonic::JMP || m == AsmMnemonic::RTS || m == AsmMnemonic::RTI
+    || m == AsmMnemonic::BCC || m == AsmMnemonic::BCS || m == AsmMnemonic::BEQ || m == AsmMnemonic::BMI || m == AsmMnemonic::BNE || m == AsmMnemonic::BPL
+}
 """
 
 
@@ -208,6 +217,9 @@ pub fn knowledge_transfer(second: Option<&AsmLine>, iter: &mut Peek, accumulator
             && (r.1 is None || sw_hash(r.1->Some_0@) || (ins(second).mnemonic == AsmMnemonic::STX && known(r.1, ins(second).dasm_operand@)))
             && (r.2 is None || sw_hash(r.2->Some_0@) || (ins(second).mnemonic == AsmMnemonic::STY && known(r.2, ins(second).dasm_operand@)))), //@ C02,C17:xfer-store-forgets-aliases
         ((!remove_second && !remove_both) && r.3 == FlagsState::A && r.0 is Some ==> nz_is_a(ins(second).mnemonic, ins(second).dasm_operand@) || (flags == FlagsState::A && nz_kept(ins(second).mnemonic))), //@ C02:xfer-flags-a
+        // the same for X and Y: TXA keeps a belief about X true (N/Z of the value copied), TYA / PLA / ADC ... do not
+        ((!remove_second && !remove_both) && r.3 == FlagsState::X && r.1 is Some ==> nz_is_x(ins(second).mnemonic) || (flags == FlagsState::X && (nz_untouched(ins(second).mnemonic) || ins(second).mnemonic == AsmMnemonic::TXA))), //@ C02:xfer-flags-x
+        ((!remove_second && !remove_both) && r.3 == FlagsState::Y && r.2 is Some ==> nz_is_y(ins(second).mnemonic) || (flags == FlagsState::Y && (nz_untouched(ins(second).mnemonic) || ins(second).mnemonic == AsmMnemonic::TYA))), //@ C02:xfer-flags-y
 %(jmp_clause)s        // a load also sets N and Z: dropping a reload of X / Y is invisible only if the flags already describe that register
         ((!remove_second && !remove_both) && r.4 && ins(second).mnemonic == AsmMnemonic::LDX ==> flags == FlagsState::X), //@ C02:xfer-reload-x-keeps-flags
         ((!remove_second && !remove_both) && r.4 && ins(second).mnemonic == AsmMnemonic::LDY ==> flags == FlagsState::Y), //@ C02:xfer-reload-y-keeps-flags
